@@ -47,17 +47,26 @@ MANIFEST = {
             "arbitrary programs), C16_err_rec_pointer_stable (arbitrary programs, any number of threads, every schedule: the "
             "record handle returned by ly_err_get_rec/ly_err_new_rec names a live record whenever it is used after the lock was "
             "dropped; true since /repo 75f292f, the former 6-thread refutation witness is kept as Example "
-            "C16_former_err_rec_witness), C16_private_ops_schedule_independent. Refuted with an explicit schedule "
+            "C16_former_err_rec_witness), C16_private_ops_schedule_independent, C16_log_temp_override_isolated (when library code silences the "
+            "logger only through the thread-local override ly_temp_log_options - all compiled API programs do - a thread "
+            "without an override of its own always logs with the options the application set, in every schedule; Example "
+            "C16_log_global_window_visible: the same trial done with the process-wide ly_log_options() is seen by other "
+            "threads and overlapping windows leave the options at 0). Refuted with an explicit schedule "
             "(vm_compute): canon_cache_single_ref_refuted (two readers of one shared value both pass the unlocked test of "
             "_canonical, one dictionary reference leaks). Tie: T2 "
             "runs forced schedules (call-level interleavings, preemption between the _canonical test and the store, "
             "preemption between ly_err_get_rec and the dereference) through the extracted model and through the C code "
             "(impl/t_conc.c: sequencing operations + link-time hooks) and compares strings left in the dictionary, lock-set "
             "violations and every ly_err_last result. Oracle conc-serial: 2..8 threads on one context "
-            "and one shared tree (parse XML/JSON/LYB, validate, print, XPath, dup, diff, apply, dictionary calls, schema "
-            "find/print, failing parses + error reads; shared-tree prints, find_path, find_xpath, eval_xpath, compare) must "
+            "and one shared tree (parse XML/JSON/LYB with drawn parser options (OPAQ, STRICT, ONLY, NO_STATE, ORDERED), "
+            "validation options and printer options, the threads' own ly_temp_log_options, validate, print, XPath, dup, diff, "
+            "apply, dictionary calls, schema find/print, failing parses + error reads, tight loops of failing parses that "
+            "check code/message/path after each while other threads stay inside the OPAQ XML parser on documents with "
+            "hundreds of leaf-list instances; shared-tree prints, find_path, find_xpath, eval_xpath, compare) must "
             "give every thread the results it gets alone in a fresh context, bring the dictionary back to the post-setup "
-            "size, never touch a table without its lock, and (ThreadSanitizer build) raise no report.",
+            "size, never touch a table without its lock, leave the process-wide state as the case set it (ly_log_options round "
+            "trip, ly_log_level, log callback, the main thread's temporary options, context options and change count), and "
+            "(ThreadSanitizer build) raise no report.",
     "note": "Known finding (still in the code): canon-lazy-cache, with a deterministic forced-schedule replay on the release "
             "build; err-rec-resize is fixed (75f292f) and its forced schedule is a regression case (model, T2 and oracle). Cases "
             "are constructed so that the listed race is either excluded (shared tree warmed or absent) - then nothing may be "
